@@ -181,7 +181,9 @@ Fixpoint dedup (l : list ident) (seen : list ident) : list ident :=
 (* names bound at the level of the function itself (not inside nested functions) *)
 Fixpoint bnames (e : expr) {struct e} : list ident :=
   match e with
-  | ENeg a | ENot a | EBNot a | EPrint a => bnames a
+  | ENeg a | ENot a | EBNot a | EPrint a | EField a _ _ => bnames a
+  | ERecNew _ es => (fix go (l : list expr) : list ident :=
+                       match l with [] => [] | a :: t => bnames a ++ go t end) es
   | EBin _ a b | EAssign a b | EWhile a b | EDoWhile a b | EIf a b | EIndex a b => bnames a ++ bnames b
   | EArrLit es _ => (fix go (l : list expr) : list ident :=
                        match l with [] => [] | a :: t => bnames a ++ go t end) es
@@ -221,7 +223,9 @@ Definition nonlocal (own : ident) (loc : list ident) (x : ident) : bool :=
 Fixpoint trav (d : bool) (e : expr) {struct e} : list ident :=
   match e with
   | EVar x => if d then [x] else []
-  | ENeg a | ENot a | EBNot a | EPrint a => trav d a
+  | ENeg a | ENot a | EBNot a | EPrint a | EField a _ _ => trav d a
+  | ERecNew _ es => (fix go (l : list expr) : list ident :=
+                       match l with [] => [] | a :: t => trav d a ++ go t end) es
   | EBin _ a b | EAssign a b | EWhile a b | EIf a b | EIndex a b => trav d a ++ trav d b
   | EArrLit es _ => (fix go (l : list expr) : list ident :=
                        match l with [] => [] | a :: t => trav d a ++ go t end) es
@@ -367,6 +371,11 @@ Fixpoint cexpr (fc : fctx) (self : option ident) (tail : bool) (L : Z) (ce : cen
       [ins BYTECODE_INT (Z.of_nat (length es)) 0; ins BYTECODE_MK_INIT_ARRAY 1 0]
   | EIndex a i =>                        (* expr_array_deref_emit: the array, the index, ARRAYREF_DEREF 1 *)
       cexpr fc None false L ce a ++ cexpr fc None false (L + 1) ce i ++ [ins BYTECODE_ARRAYREF_DEREF 1 0]
+  | ERecNew _ es =>                      (* expr_record_emit: the fields last to first, RECORD n *)
+      compile_args_f (cexpr fc None false) ce L es ++ [ins BYTECODE_RECORD (Z.of_nat (length es)) 0]
+  | ERecNil _ => [ins0 BYTECODE_NIL_RECORD_REF]
+  | EField a _ fld =>                    (* expr_attr_emit: the record, VECREF_VEC_DEREF 0 fld, SLIDE 1 1 *)
+      cexpr fc None false L ce a ++ [ins BYTECODE_VECREF_VEC_DEREF 0 (Z.of_nat fld); ins BYTECODE_SLIDE 1 1]
   | _ => []                              (* outside the fragment *)
   end.
 
@@ -435,7 +444,9 @@ End Funs.
    clauses), then those nested in these, … *)
 Fixpoint nest (e : expr) {struct e} : list (fkind * fdef) :=
   match e with
-  | ENeg a | ENot a | EBNot a | EPrint a => nest a
+  | ENeg a | ENot a | EBNot a | EPrint a | EField a _ _ => nest a
+  | ERecNew _ es => (fix go (l : list expr) : list (fkind * fdef) :=
+                       match l with [] => [] | a :: t => go t ++ nest a end) es
   | EBin _ a b | EAssign a b | EWhile a b | EDoWhile a b | EIf a b | EIndex a b => nest a ++ nest b
   | EArrLit es _ => (fix go (l : list expr) : list (fkind * fdef) :=
                        match l with [] => [] | a :: t => go t ++ nest a end) es
@@ -462,7 +473,9 @@ Definition nest_fd (fd : fdef) : list (fkind * fdef) :=
 (* nesting depth of function definitions *)
 Fixpoint edepth (e : expr) {struct e} : nat :=
   match e with
-  | ENeg a | ENot a | EBNot a | EPrint a => edepth a
+  | ENeg a | ENot a | EBNot a | EPrint a | EField a _ _ => edepth a
+  | ERecNew _ es => (fix go (l : list expr) : nat :=
+                       match l with [] => 0 | a :: t => Nat.max (edepth a) (go t) end) es
   | EBin _ a b | EAssign a b | EWhile a b | EDoWhile a b | EIf a b | EIndex a b => Nat.max (edepth a) (edepth b)
   | EArrLit es _ => (fix go (l : list expr) : nat :=
                        match l with [] => 0 | a :: t => Nat.max (edepth a) (go t) end) es
@@ -723,6 +736,12 @@ Fixpoint in_F4 (own : option ident) (sc : list ident) (e : expr) {struct e} : bo
   | ECond c a b => negb (is_lit c) && in_F4 own sc c && in_F4 own sc a && in_F4 own sc b
   | EAssign (EVar x) r => mem_id x sc && int_shaped r && in_F4 own sc r
   | EAssign (EIndex a i) r => in_F4 own sc a && in_F4 own sc i && int_shaped r && in_F4 own sc r
+  | EAssign (EField a _ _) r => in_F4 own sc a && int_shaped r && in_F4 own sc r
+  | EField a _ _ => in_F4 own sc a
+  | ERecNil _ => true
+  | ERecNew _ es =>
+      (fix all (l : list expr) : bool :=
+         match l with [] => true | a :: t => in_F4 own sc a && all t end) es
   | EIndex a i => in_F4 own sc a && in_F4 own sc i
   | EArrLit es TInt =>
       match es with [] => false | _ => true end &&
@@ -815,7 +834,8 @@ Proof. intros AF k fd H. unfold known in H. destruct (in_dec kf_eq_dec (k, fd) A
    binds an int cell (items_F_f), and int cells stay int cells (the assigned value is int_shaped) *)
 Fixpoint ivars_e (e : expr) {struct e} : list ident :=
   match e with
-  | ENeg a | ENot a | EBNot a | EPrint a => ivars_e a
+  | ENeg a | ENot a | EBNot a | EPrint a | EField a _ _ => ivars_e a
+  | ERecNew _ es => (fix go (l : list expr) : list ident := match l with [] => [] | a :: t => ivars_e a ++ go t end) es
   | EBin _ a b | EWhile a b | EDoWhile a b | EIf a b | EAssign a b | EIndex a b => ivars_e a ++ ivars_e b
   | EArrLit es _ => (fix go (l : list expr) : list ident := match l with [] => [] | a :: t => ivars_e a ++ go t end) es
   | ECond c a b => ivars_e c ++ ivars_e a ++ ivars_e b
@@ -881,13 +901,24 @@ Fixpoint in_F (FS : fsigs) (TL : list ident) (AF : list (fkind * fdef)) (self : 
   | ENeg a => negb (is_lit a) && in_F FS TL AF self lv sc a
   | ENot a => negb (is_lit a) && in_F FS TL AF self lv sc a
   | EBin op a b =>
-      (f1_binop op || Nat.leb 2 lv) && negb (is_lit a && is_lit b) && shift_ok op b &&
-      in_F FS TL AF self lv sc a && in_F FS TL AF self lv sc b
+      (* level 8 (nil records exist): the right operand of == / != is int_shaped — Src/Eval.v compares two references
+         of which one is nil, where the emitted OP_EQ_INT is stuck *)
+      (Nat.leb lv 7 || match op with Eq | Ne => int_shaped b | _ => true end) &&
+      ((f1_binop op || Nat.leb 2 lv) && negb (is_lit a && is_lit b) && shift_ok op b &&
+       in_F FS TL AF self lv sc a && in_F FS TL AF self lv sc b)
   | ECond c a b => negb (is_lit c) && in_F FS TL AF self lv sc c && in_F FS TL AF self lv sc a && in_F FS TL AF self lv sc b
   | EAssign (EVar x) r => at6 lv (mem_id x (int_vars AF)) && mem_id x sc && int_shaped r && in_F FS TL AF self lv sc r
   | EAssign (EIndex a i) r =>          (* level 7: an element of a one-dimensional int array *)
       Nat.leb 7 lv && in_F FS TL AF self lv sc a && in_F FS TL AF self lv sc i && int_shaped r && in_F FS TL AF self lv sc r
   | EIndex a i => Nat.leb 7 lv && in_F FS TL AF self lv sc a && in_F FS TL AF self lv sc i
+  | EAssign (EField a _ _) r =>        (* level 8: a field of a record *)
+      Nat.leb 8 lv && in_F FS TL AF self lv sc a && int_shaped r && in_F FS TL AF self lv sc r
+  | EField a _ _ => Nat.leb 8 lv && in_F FS TL AF self lv sc a
+  | ERecNil _ => Nat.leb 8 lv
+  | ERecNew _ es =>                    (* level 8: R(e1, …, en), every field int_shaped *)
+      Nat.leb 8 lv && forallb int_shaped es &&
+      (fix all (l : list expr) : bool :=
+         match l with [] => true | a :: t => in_F FS TL AF self lv sc a && all t end) es
   | EArrLit es _ =>                    (* level 7: [e1, …, en] : int, n >= 1, every element int_shaped *)
       Nat.leb 7 lv && match es with [] => false | _ => true end && forallb int_shaped es &&
       (fix all (l : list expr) : bool :=
